@@ -123,7 +123,7 @@ def run(ctx):
         sampled = sampled or [v for v, r in zip(vectors, rows) if r["class"] == "ok"]
 
     # 3. M3: random sequences through the real code -> trace spec
-    chunks, runs = (5, 300) if ctx.thorough else (1, 60)
+    chunks, runs = (4, 250) if ctx.thorough else (1, 60)
     events = tr = None
     trace_cfg = "TraceFlat.cfg"
     for k in range(chunks):
